@@ -26,7 +26,20 @@ RULE = ('case = (numeric table X on a dyadic grid, integer targets y, how the tr
         'exactly on a threshold and one float64 ulp above / below it, in-bag and out-of-bag (`probe`: three such objects are '
         'added to the context for every split of the fitted tree; `train`: the tree is grown on a subset of the rows), and '
         'tables mixing a column in the millions with a column in thousandths; the ulp-probe stream adds the same probes to '
-        'ordinary random tables')
+        'ordinary random tables; the mixed-scale stream (H3) is about ONE tree whose thresholds live on very different scales: '
+        'fitted trees on tables with a huge-scale column (2^60 + k 2^40, k 2^20, 2^100 + k 2^80, negative ones) next to a '
+        'tiny-scale one (k 2^-10, k 2^-16, 1 + k 2^-12) - whole table, training subset, forest member, best-first builder - '
+        'and one column holding float32 neighbours at three scales, with `ulp` or `ladder` probes (objects 2^k float64 ulps '
+        'above / below every threshold, k = 0..51, so that a gap or an overlap of ANY width between the two child intervals '
+        'contains an object), and hand-written trees with 3-5 splits whose thresholds are drawn from all scales and signs '
+        '(2^60 .. denormals) with a row that reaches every node and ladder objects around every threshold; the size stream '
+        '(H8) crosses 64/65 and 128/129 on objects, features, nodes = concepts = generator records (every object its own '
+        'leaf; forest members, best-first numbering, a training subset with probes) and has one tree with 1039 nodes; every '
+        'non-malformed, non-size case also asks the converted lattice about ANOTHER context over the same columns (held-out '
+        'objects: recombined values, objects on / one ulp around thresholds, far outside, a repeated object); the '
+        'interaction stream has targets that are a pure interaction of the columns (XOR / checkerboard / parity, alone or '
+        'nested below an ordinary split; balanced cells, dyadic values): CART then makes zero-gain splits, i.e. internal '
+        'nodes whose value equals the parent\'s (delta exactly 0) with a whole subtree below')
 EXHAUSTIVE = {
     'quick': 'all one-column tables with 1..3 rows over the grid {0,1,2} x all targets over {0,1,3}, unbounded depth (819 trees)',
     'thorough': 'quick scope + all 2-column tables with 1..3 rows over {0,1} x all targets over {0,1,3} at depths 1 and None, '
@@ -44,7 +57,13 @@ EXPLANATION = ('the property is judged on the implementation\'s own outputs: DL.
                'exact rational, interval ends of generators are compared EXACTLY, and `wellFormed` (thr < nxt thr; no value of '
                'the context strictly between) is evaluated by the driver on every case. There is no public way to pass an '
                'explicit eps (`from_decision_tree` calls the private parser without it), so that mode is covered by the '
-               'theorem `dl_predict_eq_tree_eps` only.')
+               'theorem `dl_predict_eq_tree_eps` only.  Prediction of a context OTHER than the one of the conversion '
+               '(dl_predict_other_context) is compared with the descent on the arrays, with sklearn on float32-exact rows and '
+               'with the model (predictions, records); a difference there is reported as a correspondence failure because '
+               'the property speaks about the objects of the conversion context only.  Cases with >= 600 nodes are answered '
+               'by the driver on its cheap path (wellFormed, descent, checker of the implementation\'s records), without the '
+               'model run.  Hand-written trees with a node no row reaches (they arise only when a failing case is shrunk) are '
+               'outside the property: implementation and model are compared, nothing else.')
 ASSUMPTIONS = [
     'cells are single numbers (IntervalPS stores them as (x, x)); data and thresholds lie on a dyadic grid so float comparisons '
     'are exact; node values are the exact rational values of sklearn\'s float64 means',
@@ -64,6 +83,7 @@ TRUSTED = ['sklearn fitting (the fitted arrays are input data); sklearn `predict
            '`np.nextafter(t, inf)` is the IEEE-754 successor of the float64 `t` (cross-checked on every threshold against '
            '`math.nextafter` and against the bit pattern + 1)']
 CHUNK = 60
+FAST_NODES = 600     # from that many tree nodes on, the driver skips the (quadratic) model run, see Drv/C20 "fast"
 REQUESTS_NEED_IMPL = True
 
 # 0.09375 = 3/32 stands for "0.1" on the dyadic grid; 1 (int), 1.0 and -1.0 are the neutral / sign constants, where a
@@ -85,12 +105,16 @@ def F(x):
 
 
 def _mk_case(stream, X, y, kind='tree', depth=None, seed=0, est=0, mut=None, params=None, renum=None, train=None,
-             probe=None, arrays=None):
+             probe=None, arrays=None, light=False):
     c = dict(stream=stream, X=X, y=y, kind=kind, depth=depth, seed=seed, est=est)
+    if light:
+        c['light'] = int(light)       # big case: that many scaling constants only (True = 1), no aliasing histories
     if train is not None:
         c['train'] = train            # rows the tree is grown on (the other rows of the context are out-of-bag objects)
     if probe:
-        c['probe'] = probe            # 'ulp': for every split add objects on the threshold and one float64 ulp above / below
+        c['probe'] = probe            # 'ulp': for every split add objects on the threshold and one float64 ulp above / below;
+                                      # 'ladder': ... and 2**k float64 ulps above / below, k up to 51 (a gap or an overlap of
+                                      # ANY width between the two child intervals swallows one of them)
     if arrays is not None:
         c['arrays'] = arrays          # kind == 'arrays': a hand-written tree in sklearn's array form
     if mut is not None:
@@ -118,6 +142,34 @@ def succ(t):
 
 def pred_(t):
     return -succ(-float(t))
+
+
+def _ord(t):
+    """Position of the float64 `t` on the (signed) float64 grid: consecutive floats have consecutive positions."""
+    b = struct.unpack('<Q', struct.pack('<d', float(t)))[0]
+    return -(b & (2 ** 63 - 1)) if b >> 63 else b
+
+
+_ORD_MAX = _ord(1.7976931348623157e308)
+
+
+def ulp_shift(t, d):
+    """The float64 `d` grid steps above (d > 0) / below (d < 0) `t`, clamped to the finite floats."""
+    o = max(-_ORD_MAX, min(_ORD_MAX, _ord(t) + d))
+    return struct.unpack('<d', struct.pack('<Q', o if o >= 0 else (-o) | (1 << 63)))[0]
+
+
+# distances (in float64 ulps) of the 'ladder' probes from a threshold: 1, 2, 16, ... 2**51 (2**29 = one float32 ulp,
+# 2**52 = the next binade): whatever the width of a gap / an overlap between the two child intervals, one rung is inside
+LADDER = (0, 1, 4, 12, 22, 28, 29, 36, 44, 51)
+
+
+def _ladder(t):
+    return [float(t)] + [ulp_shift(t, sg * 2 ** k) for k in LADDER for sg in (1, -1)]
+
+
+def consts_of(c):
+    return CONSTS[:max(1, int(c['light']))] if c.get('light') else CONSTS
 
 
 def _f32(v):
@@ -212,6 +264,175 @@ def _eps_scale_cases(rng):
                 yield _mk_case('eps-scale', X, y, kind='forest', seed=it, est=e, probe='ulp')
 
 
+# column scales (base, step): the column holds base + k * step, k = 1..15 - every value float32-exact, neighbouring values
+# further apart than sklearn's absolute split limit 1e-7
+HUGE_COLS = ((2.0 ** 60, 2.0 ** 40), (0.0, 2.0 ** 20), (2.0 ** 100, 2.0 ** 80), (-(2.0 ** 60), 2.0 ** 40), (0.0, -(2.0 ** 30)),
+             (2.0 ** 24, 2.0))
+TINY_COLS = ((0.0, 2.0 ** -10), (0.0, 2.0 ** -16), (0.0, -(2.0 ** -10)), (1.0, 2.0 ** -12), (0.0, 1.0), (-4.0, 2.0 ** -20))
+
+
+def _reach_rows(arr, pools, rng, extra=24):
+    """Rows for a hand-written tree: for every node one row that reaches it (None when a node cannot be reached), then
+    `extra` random combinations of the per-feature value pools."""
+    m = len(pools)
+    n = len(arr['left'])
+    cons = {0: []}
+    for i in range(n):
+        if arr['left'][i] != -1 and i in cons:
+            cons[arr['left'][i]] = cons[i] + [(arr['feature'][i], arr['threshold'][i], True)]
+            cons[arr['right'][i]] = cons[i] + [(arr['feature'][i], arr['threshold'][i], False)]
+    rows = []
+    for i in range(n):
+        if i not in cons:
+            return None
+        row = []
+        for f in range(m):
+            ub = [t for ff, t, left in cons[i] if ff == f and left]
+            lb = [t for ff, t, left in cons[i] if ff == f and not left]
+            if ub and lb and not max(lb) < min(ub):
+                return None
+            # hug the tightest bound: on the threshold for a left turn, one ulp above it for a right turn
+            row.append(min(ub) if ub else (succ(max(lb)) if lb else pools[f][0]))
+        rows.append(row)
+    for _ in range(extra):
+        rows.append([rng.choice(pools[f]) for f in range(m)])
+    return rows
+
+
+def _mixed_arrays_case(rng):
+    """A hand-written tree with 3-5 splits whose thresholds are drawn from ALL scales (one tree mixes 2**60 with 1e-12 with
+    denormals, both signs; the same column may be split at two very different scales), objects on / around every threshold
+    at every distance of the ladder.  Returns None when the drawn thresholds contradict each other."""
+    m = rng.randint(1, 3)
+    k = rng.randint(3, 5)
+    # random binary tree with k internal nodes, nodes numbered in pre-order
+    left, right, feature, threshold = [], [], [], []
+
+    def build(budget):
+        i = len(left)
+        left.append(-1); right.append(-1); feature.append(-2); threshold.append(-2.0)
+        if budget > 0:
+            bl = rng.randint(0, budget - 1)
+            feature[i] = rng.randrange(m)
+            t0 = rng.choice(SCALES[:-1] + (2.0 ** 40, 2.0 ** 60, 3.0, 1e-3, 2.0 ** -40))
+            threshold[i] = rng.choice((t0, -t0))
+            left[i] = build(bl)
+            right[i] = build(budget - 1 - bl)
+        return i
+    build(k)
+    arr = dict(left=left, right=right, feature=feature, threshold=threshold,
+               value=[float(rng.randrange(-8, 9)) for _ in left])
+    pools = [[0.0] for _ in range(m)]
+    for f, t, l in zip(feature, threshold, left):
+        if l != -1:
+            pools[f] += _ladder(t)
+    rows = _reach_rows(arr, pools, rng)
+    if rows is None:
+        return None
+    return _mk_case('mixed-scale', rows, [0.0] * len(rows), kind='arrays', arrays=arr)
+
+
+def _mixed_scale_cases(rng, tier, boost):
+    """(H3) extreme scales mixed within ONE tree.  A step / tolerance that is right at one scale is wrong at another one:
+    the tree must split on a huge-scale AND on a tiny-scale column (or on one column at two scales), and the context must
+    hold objects within a few ulps of EACH threshold, on both sides, in-bag and out-of-bag."""
+    ntab = (10 if tier == 'quick' else 60) * (2 if boost else 1)
+    for it in range(ntab):
+        n = rng.randint(6, 12)
+        cols = [rng.choice(HUGE_COLS), rng.choice(TINY_COLS)]
+        if it % 3 == 2:
+            cols.append(rng.choice(HUGE_COLS + TINY_COLS))
+        if it % 2:
+            cols.reverse()
+        X = [[b + float(rng.randrange(1, 16)) * st for b, st in cols] for _ in range(n)]
+        med = [sorted(r[j] for r in X)[n // 2] for j in range(len(cols))]
+        y = [sum(float(2 ** j) * (r[j] > med[j]) for j in range(len(cols)))
+             + (3.0 if it % 3 == 0 and all(r[j] > med[j] for j in range(len(cols))) else 0.0) for r in X]
+        yield _mk_case('mixed-scale', X, y, seed=it, probe='ulp')
+        yield _mk_case('mixed-scale', X, y, seed=it, train=sorted(rng.sample(range(n), n - 2)), probe='ladder')
+        yield _mk_case('mixed-scale', X, y, kind='forest', seed=it, est=it % 3, probe='ulp' if it % 2 else 'ladder')
+        if it % 4 == 0:
+            yield _mk_case('mixed-scale', X, y, seed=it, params=dict(max_leaf_nodes=4), probe='ulp')
+    # one column split at several scales: values 1, 3, 2**20 + 1, 2**20 + 3, 2**60, ... (in-bag neighbours at each scale)
+    for it in range(3 if tier == 'quick' else 12):
+        sc = rng.sample((1.0, 2.0 ** 20, 2.0 ** 40, 2.0 ** 60, 2.0 ** 100, 2.0 ** -10), 3)
+        vals = sorted({sg * _f32_next(s_, k) for s_ in sc for k in (0, 1, 2) for sg in ((1.0, -1.0) if it % 2 else (1.0,))})
+        X = [[v] for v in vals]
+        y = [float((3 * i) % 7) for i in range(len(vals))]
+        yield _mk_case('mixed-scale', X, y, seed=it, probe='ulp')
+        yield _mk_case('mixed-scale', X, y, seed=it, train=list(range(0, len(vals), 2)) + [len(vals) - 1][:len(vals) % 2 == 0],
+                       probe='ladder')
+    done, tries = 0, 0
+    want = (12 if tier == 'quick' else 80) * (2 if boost else 1)
+    while done < want and tries < 20 * want:
+        tries += 1
+        c = _mixed_arrays_case(rng)
+        if c is not None:
+            done += 1
+            yield c
+
+
+def _interaction_cases(rng, tier, boost):
+    """Targets that are a pure interaction of the columns (XOR, checkerboard, parity; alone or nested below an ordinary
+    split): every candidate split of such a node has zero gain, so CART splits it into children whose mean EQUALS the
+    parent's - an internal node with a zero delta and a whole subtree below it.  Balanced cells and integer / dyadic
+    values make the equality exact."""
+    ntab = (8 if tier == 'quick' else 60) * (2 if boost else 1)
+    for it in range(ntab):
+        m = 2 if it % 3 else 3
+        reps = rng.randint(1, 2)
+        lv = rng.choice(((0.0, 1.0), (0.0, 1.0, 2.0, 3.0), (-1.0, 1.0), (0.5, 2.5)))
+        cells = list(itertools.product(lv if m == 2 else lv[:2], repeat=m))
+        amp = rng.choice((1.0, 2.0, 4.0, 0.5))
+        rank = {v: i for i, v in enumerate(lv)}
+        X, y = [], []
+        for cell in cells:
+            par = sum(rank[v] for v in cell) % 2
+            for _ in range(reps):
+                X.append([float(v) for v in cell])
+                y.append(amp * par)
+        if it % 2:
+            # nested: an ordinary split on a further column first, the interaction below each side
+            X = [r + [0.0] for r in X] + [r + [1.0] for r in X]
+            y = y + [8.0 + 2.0 * v for v in y]
+        order = list(range(len(X)))
+        rng.shuffle(order)
+        X, y = [X[i] for i in order], [y[i] for i in order]
+        sd = rng.randint(0, 10 ** 6)
+        yield _mk_case('interaction', X, y, seed=sd)
+        yield _mk_case('interaction', X, y, seed=sd, params=dict(max_leaf_nodes=rng.choice((4, 6, 8))))
+        if it % 2 == 0:
+            yield _mk_case('interaction', X, y, seed=sd, params=dict(splitter='random'))
+
+
+def _size_cases(rng, tier, boost):
+    """(H8) directed large cases that cross 64/65 and 128/129 on every index-like dimension of the converter - objects,
+    features, tree nodes / concepts / generator records - and >= 1000 nodes once.  Every object sits in its own leaf, so an
+    object (a node, a feature) with index >= 64 decides the prediction; trees of forests leave objects >= 64 out of bag."""
+    for n in (64, 65, 128, 129):
+        vals = list(range(n))
+        rng.shuffle(vals)
+        X = [[float(v)] for v in vals]
+        y = [float((7 * i) % 11 + (i >= 64)) for i in range(n)]
+        yield _mk_case('size', X, y, seed=n, light=2)                                    # 2n - 1 nodes: 127 .. 257
+        if n in (65, 129):
+            yield _mk_case('size', X, y, kind='forest', seed=n, est=1, light=2)
+            yield _mk_case('size', X, y, seed=n, params=dict(max_leaf_nodes=n - 1), light=2)   # best-first numbering
+            yield _mk_case('size', X, y, seed=n, train=list(range(0, n, 2)), probe='ulp', light=2)
+    for m in (64, 65, 128, 129):
+        n = 10
+        # only the last two columns carry information: the tree splits on feature m - 1 and m - 2
+        X = [[1.0] * (m - 2) + [float(i % 5), float(i // 5)] for i in range(n)]
+        y = [float(3 * (i % 5) + 20 * (i // 5)) for i in range(n)]
+        yield _mk_case('size', X, y, seed=m, light=2)
+    # >= 1000 nodes / concepts / generator records (every object its own leaf: 2 * 520 - 1 nodes); the Lean side answers
+    # such a case on its linear-time path only (hypotheses, descent, checker of the implementation's records)
+    n = 520
+    vals = list(range(n))
+    rng.shuffle(vals)
+    yield _mk_case('size', [[float(v)] for v in vals], [float(i) for i in range(n)], seed=1, light=1)
+
+
 def _code_succ(thr, eps):
     """What the converter puts at the left end of the right child's interval, as a float."""
     return succ(thr) if eps is None else float(thr) + eps
@@ -296,6 +517,9 @@ def gen(tier, seed, boost=False):
                 c = c.get('case', c)
                 c['stream'] = 'corpus'
                 yield c
+    # a small directed stream first: on the tiny tables below a rule with a zero delta is always a LEAF (dropping it changes
+    # the records but no prediction); here zero-delta rules are internal nodes, so the same mistake shows in the predictions
+    yield from _interaction_cases(random.Random(seed * 49979687 + 5), tier, boost)
     # exhaustive small scope
     for n in (1, 2, 3):
         for xs in itertools.product((0, 1, 2), repeat=n):
@@ -312,6 +536,8 @@ def gen(tier, seed, boost=False):
             for ys in itertools.product((0, 1, 3), repeat=4):
                 yield _mk_case('exhaustive-4rows', [[float(v)] for v in xs], [float(v) for v in ys])
     yield from _eps_scale_cases(random.Random(seed * 104729 + 23))
+    yield from _mixed_scale_cases(random.Random(seed * 15485863 + 3), tier, boost)
+    yield from _size_cases(random.Random(seed * 32452843 + 8), tier, boost)
     yield from _growth_cases(random.Random(seed * 7919 + 20), tier, boost)
     # seeded random larger cases
     nctx = 150 if tier == 'quick' else 1500
@@ -387,12 +613,16 @@ def _fit(c):
     return X, y, DecisionTreeRegressor(max_depth=c['depth'], random_state=c['seed'], **pr).fit(Xt, yt)
 
 
-def _probes(arr, X, limit=6):
+def _probes(arr, X, limit=6, mode='ulp'):
     """Out-of-bag objects for the first `limit` splits of the tree: a row of the context that reaches the split, with the
-    split feature replaced by the threshold itself, by its float64 successor and by its float64 predecessor."""
+    split feature replaced by the threshold itself, by its float64 successor and by its float64 predecessor
+    (mode 'ladder': and by the floats 2**k ulps above / below it, see LADDER; the first 4 splits)."""
     rows = []
+    if mode == 'ladder':
+        limit = 4
+    nsplit = 0
     for i, l in enumerate(arr['left']):
-        if l == -1 or len(rows) >= 3 * limit:
+        if l == -1 or nsplit >= limit:
             continue
         f, thr = arr['feature'][i], arr['threshold'][i]
         base = None
@@ -405,9 +635,28 @@ def _probes(arr, X, limit=6):
                 break
         if base is None:
             continue
-        for v in (thr, succ(thr), pred_(thr)):
+        nsplit += 1
+        for v in (_ladder(thr) if mode == 'ladder' else (thr, succ(thr), pred_(thr))):
             rows.append([float(w) for w in base[:f]] + [float(v)] + [float(w) for w in base[f + 1:]])
     return rows
+
+
+def _other_rows(c, arr, rows):
+    """The rows of ANOTHER context over the same columns (held-out objects): recombinations of the values of each column,
+    objects on / one ulp around the first thresholds, and one object far below / far above everything."""
+    rng = random.Random(json.dumps([c['X'], c['seed'], c['kind']]))
+    m = len(rows[0])
+    cols = [[r[j] for r in rows] for j in range(m)]
+    out = [[rng.choice(cols[j]) for j in range(m)] for _ in range(rng.randint(1, 4))]
+    out += _probes(arr, rows, limit=3)
+    def far(v, sg):
+        w = v + sg * max(1.0, abs(v))
+        return w if math.isfinite(w) else ulp_shift(v, sg * 2 ** 45)
+    out.append([far(min(cols[j]), -1) for j in range(m)])
+    out.append([far(max(cols[j]), 1) for j in range(m)])
+    if rng.random() < 0.5:
+        out.append(list(out[0]))                # the same object twice
+    return [[float(v) for v in r] for r in out]
 
 
 def _renumber(arr, how):
@@ -542,7 +791,7 @@ def impl(c):
     arr = copy.deepcopy(c['arrays']) if c['kind'] == 'arrays' else _arrays(tree)
     out = dict(eps=eps_of_code())
     if c.get('probe'):
-        extra = _probes(arr, X.tolist())
+        extra = _probes(arr, X.tolist(), mode=c['probe'])
         if extra:
             X = np.vstack([X, np.array(extra, dtype=float)])
             y = np.concatenate([y, np.zeros(len(extra))])
@@ -590,7 +839,7 @@ def impl(c):
     dec0 = _canon_decisions(D)
     out['decisions'] = dec0
     scaled = []
-    for cst in CONSTS:
+    for cst in consts_of(c):
         s = dict(c=float(cst), ctype=type(cst).__name__)
         try:
             # out of place, then a two-step in-place history on the RESULT; the ORIGINAL is re-examined after every step
@@ -623,8 +872,25 @@ def impl(c):
         scaled.append(s)
     out['scaled'] = scaled
     # the aliasing histories cost several conversions: on the tiny exhaustive tables run them on every third case only
-    if not c.get('mut') and (c['stream'] != 'exhaustive' or int(sum(c['y']) + sum(r[0] for r in c['X'])) % 3 == 0):
+    if not c.get('mut') and not c.get('light') and (c['stream'] != 'exhaustive' or int(sum(c['y']) + sum(r[0] for r in c['X'])) % 3 == 0):
         out['hist'] = _histories(c, tree, K, X, D)
+    if not c.get('mut') and not c.get('light'):
+        # the converted lattice asked about ANOTHER context over the same columns (theorem dl_predict_other_context)
+        rows2 = _other_rows(c, arr, rows)
+        out['X2'] = rows2
+        out['tree_pred2'] = _walk(arr, rows2)
+        try:
+            Kh = MVContext(rows2, {nm: PS.IntervalPS for nm in names}, attribute_names=names,
+                           object_names=['h%d' % i for i in range(len(rows2))])
+            out['pred2'] = [float(v) for v in D.predict(Kh)]
+            out['pred2_mul'] = [float(v) for v in (D * CONSTS[0]).predict(Kh)]
+            _, _, ge2 = L.trace_context(Kh, use_object_indices=True, use_generators=True, return_generators_extents=True)
+            out['recs2'] = _canon_recs(ge2)
+            if c['kind'] != 'arrays' and not c.get('renum'):
+                sk2 = [float(v) for v in tree.predict(np.array(rows2, dtype=float))]
+                out['sk_rows2'] = [[i, sk2[i]] for i, r_ in enumerate(rows2) if _f32_exact(r_)]
+        except Exception as e:
+            out['pred2'] = 'err:' + type(e).__name__ + ': ' + str(e)[:120]
     out['decisions_after'] = _canon_decisions(D)
     try:
         out['pred_after'] = [float(v) for v in D.predict(K)]
@@ -702,6 +968,29 @@ def _histories(c, tree, K, X, D):
         if step(lambda: PP.__itruediv__(K2)):
             obs.append((f'{tag}: pp = (dl*c)*{K1}; pp /= {K2}  ->  dl', 1.0, _pred(E, K)))
             obs.append((f'{tag}: pp = (dl*c)*{K1}; pp /= {K2}  ->  pp', cf * K1 / K2, _pred(PP, K)))
+        # D (H5): the public knobs and the returned containers of ONE of the two edited (`use_generators` setter, the
+        #    dictionary handed out by `algo_params`, a concept removed from / added to the handed-out `lattice`), the OTHER asked
+        E = conv()
+        P = E * cst
+        ap, ug, n_before = dict(E.algo_params), E.use_generators, len(E.lattice)
+        if step(lambda: (setattr(P, 'use_generators', False), P.algo_params.update(random_state=12345, extra=1))):
+            obs.append((f'{tag}: p = dl*c; p.use_generators = False; p.algo_params.update(..)  ->  dl', 1.0, _pred(E, K)))
+            obs.append((f'{tag}: p = dl*c; p.use_generators = False; p.algo_params.update(..)  ->  dl.algo_params, '
+                        f'dl.use_generators unchanged', None, E.algo_params == ap and E.use_generators is ug))
+        # (the last concept is the bottom when one was added - it cannot be removed -, the one before it is a leaf)
+        if len(P.lattice) > 2 and (step(lambda: P.lattice.remove(P.lattice[len(P.lattice) - 1]))
+                                   or step(lambda: P.lattice.remove(P.lattice[len(P.lattice) - 2]))):
+            obs.append((f'{tag}: p = dl*c; p.lattice.remove(a leaf concept)  ->  dl', 1.0, _pred(E, K)))
+            obs.append((f'{tag}: p = dl*c; p.lattice.remove(a leaf concept)  ->  len(dl.lattice) unchanged', None,
+                        len(E.lattice) == n_before))
+        E = conv()
+        P, Qd = E * cst, E / cst
+        if foreign and step(lambda: E.lattice.add(foreign[0])):
+            obs.append((f'{tag}: p = dl*c; q = dl/c; dl.lattice.add(concept)  ->  p', cf, _pred(P, K)))
+            obs.append((f'{tag}: p = dl*c; q = dl/c; dl.lattice.add(concept)  ->  q', 1.0 / cf, _pred(Qd, K)))
+        if step(lambda: E.algo_params.update(random_state=777)):
+            obs.append((f'{tag}: p = dl*c; dl.algo_params.update(random_state=777)  ->  p.algo_params unchanged', None,
+                        P.algo_params == ap))
     # H2: the returned prediction array mutated in place by the caller, then asked again; an equal, rebuilt context
     r1 = D.predict(K)
     try:
@@ -732,10 +1021,12 @@ def requests(c, io):
     ths = sorted({float(t) for t in a['threshold']})
     nxt = [[frac(t), frac(_code_succ(t, io['eps']))] for t in ths if math.isfinite(_code_succ(t, io['eps']))]
     X = io.get('X', c['X'])
-    return [dict(op='C20.run', left=a['left'], right=a['right'], feature=a['feature'],
+    more = dict(X2=[[frac(v) for v in r_] for r_ in io['X2']]) if 'X2' in io else {}
+    return [dict(more, op='C20.run', left=a['left'], right=a['right'], feature=a['feature'],
                  threshold=[frac(v) for v in a['threshold']], value=[frac(v) for v in a['value']],
                  X=[[frac(v) for v in r] for r in X], m=len(c['X'][0]), nxt=nxt,
-                 consts=[frac(v) for v in CONSTS], k1=frac(K1), k2=frac(K2), recs=recs)]
+                 consts=[frac(v) for v in consts_of(c)], k1=frac(K1), k2=frac(K2), recs=recs,
+                 fast=len(a['left']) >= FAST_NODES)]
 
 
 def close(a, b, tol=1e-9):
@@ -796,6 +1087,12 @@ def judge(c, io, rep):
     r = rep[0]
     if c.get('mut'):
         return _judge_malformed(c, io, r)
+    if c['kind'] == 'arrays' and r.get('fitted') is False:
+        # a hand-written tree with a node that no row of the context reaches (it arises when a failing case is shrunk
+        # by dropping rows): no tree fitted on the context looks like that - an unreached right child has the extent of
+        # the bottom and the UNCHANGED converter may raise ValueError - so the property does not speak about it; only
+        # implementation and model are compared
+        return _judge_malformed(dict(c, mut='unreached-node'), io, r)
     # ---- the property itself, on the implementation's own outputs -------------------------------------------------
     if 'err' in io:
         return bad('property', f'conversion/prediction raised {io["err"]}: {io.get("msg")}')
@@ -851,11 +1148,16 @@ def judge(c, io, rep):
     if not r['wf']:
         return bad('harness', 'generated case is outside the theorem\'s hypothesis: wellFormed = false for a fitted tree '
                               '(in the nextafter mode it holds for every float64 table)')
-    if not r.get('fitted'):
+    if not r.get('fitted') and not r.get('fast'):
         return bad('harness', 'generated case is outside the theorem\'s hypothesis: fitted = false (a node no row reaches)')
     if r['recs_ok'] is not True:
         return bad('property', f'implementation\'s generator records are not the root-to-leaf paths: recs={io["recs"]} '
                                f'paths={r["paths"]}')
+    if r.get('fast'):
+        # >= FAST_NODES nodes: no model run; the tree's own descent in Lean must still be what sklearn / the walk says
+        if [Q(p) for p in r['tree_pred']] != [F(v) for v in tp]:
+            return bad('correspondence', f'sklearn predict {tp} != standard descent on the arrays')
+        return dict(ok=True)
     # ---- model self-consistency (what the theorems say) ----------------------------------------------------------------
     if 'err' in r['conv']:
         return bad('harness', f'model conversion raises {r["conv"]["err"]} although wellFormed and fitted hold '
@@ -870,7 +1172,7 @@ def judge(c, io, rep):
         return bad('harness', f'model prediction {mp} != model tree descent {mt} although dl_predict_eq_tree says equal')
     if not r['order_indep']:
         return bad('harness', 'model prediction depends on the record order')
-    for s, cst in zip(r['scaled'], CONSTS):
+    for s, cst in zip(r['scaled'], consts_of(c)):
         if not s['pure'] or 'ok' not in s['mul'] or 'ok' not in s['div']:
             return bad('harness', f'model scaling failed for {cst}: {s}')
         if [Q(p) for p in s['mul']['ok']] != [F(cst) * v for v in mp] or [Q(p) for p in s['div']['ok']] != [v / F(cst) for v in mp]:
@@ -896,6 +1198,33 @@ def judge(c, io, rep):
         for k_ in ('mul', 'div', 'mul_imul', 'mul_imul_idiv', 'div_idiv', 'div_idiv_imul'):
             if 'ok' not in ms[k_] or not closev(s[k_], [float(Q(p)) for p in ms[k_]['ok']]):
                 return bad('correspondence', f'scaled predictions ({k_}) differ for c={s["c"]}: impl {s[k_]} model {ms[k_]}')
+    # ---- the lattice asked about another context (outside the letter of the property: reported as correspondence) --------
+    if 'pred2' in io:
+        o = r.get('other')
+        tp2 = io['tree_pred2']
+        if not o or not o['wf']:
+            return bad('harness', 'the other context is outside wellFormed (it holds for every float64 table)')
+        if 'ok' not in o['pred'] or [Q(p) for p in o['pred']['ok']] != [Q(p) for p in o['tree_pred']] or not o['trace_ok']:
+            return bad('harness', f'model prediction on another context {o["pred"]} != descent {o["tree_pred"]} although '
+                                  f'dl_predict_other_context says equal')
+        if [Q(p) for p in o['tree_pred']] != [F(v) for v in tp2]:
+            return bad('harness', 'descent on the arrays differs between Python and Lean on the other context')
+        if isinstance(io['pred2'], str):
+            return bad('correspondence', f'DL.predict(another context {io["X2"]}) raised {io["pred2"]}; the model predicts {tp2}')
+        if not closev(io['pred2'], tp2):
+            return bad('correspondence', f'DL.predict(another context {io["X2"]}) = {io["pred2"]} but the tree predicts {tp2}')
+        for i, v in io.get('sk_rows2', []):
+            if not close(v, tp2[i]):
+                return bad('correspondence', f'sklearn predict {v} != standard descent {tp2[i]} for the float32-exact held-out '
+                                             f'row {io["X2"][i]}')
+        if not closev(io['pred2_mul'], [float(CONSTS[0]) * v for v in io['pred2']]):
+            return bad('correspondence', f'(DL*{CONSTS[0]}).predict(another context) = {io["pred2_mul"]}, expected '
+                                         f'{CONSTS[0]} * {io["pred2"]}')
+        mr2 = o['recs']['ok']
+        if len(mr2) != len(io['recs2']) or any(
+                (a['sup'], a['c'], a['ext']) != (b['sup'], b['c'], b['ext']) or not _gen_close(a['gen'], b['gen'])
+                for a, b in zip(mr2, io['recs2'])):
+            return bad('correspondence', f'generator records on another context differ: impl {io["recs2"]} model {mr2}')
     return dict(ok=True)
 
 
@@ -960,6 +1289,22 @@ def branch(c, io, rep):
             out.append('threshold>=2^23')
         if any(abs(t) < 1e-9 for _, t in ths):
             out.append('threshold<1e-9')
+        ex = [math.frexp(t)[1] for _, t in ths if t != 0.0]
+        if ex and max(ex) - min(ex) >= 40:
+            out.append('one-tree-thresholds-span>=2^40')
+        if c.get('probe') == 'ladder' or c['stream'] == 'mixed-scale' and c['kind'] == 'arrays':
+            out.append('ladder-probes')
+        if len(io['X']) >= 65 or len(io['X'][0]) >= 65 or n >= 65:
+            out.append('size>=65:' + '/'.join(w for w, k in (('objects', len(io['X'])), ('features', len(io['X'][0])),
+                                                            ('nodes', n)) if k >= 65))
+        if n >= 1000:
+            out.append('nodes>=1000')
+        par = {}
+        for i, l in enumerate(a_['left']):
+            if l != -1:
+                par[l] = par[a_['right'][i]] = i
+        if any(a_['left'][k] != -1 and a_['value'][k] == a_['value'][p_] for k, p_ in par.items() if 0 <= k < n):
+            out.append('internal-node-with-zero-delta')
     if io.get('decisions') and any('num' in (d or {}) if isinstance(d, dict) else False
                                    for r in io['decisions'] for _, d in r['gen']):
         out.append('premise-collapsed')
